@@ -12,6 +12,7 @@ package main
 
 import (
 	"context"
+	"errors"
 	"fmt"
 	"hash/fnv"
 	"math/rand"
@@ -45,6 +46,7 @@ const (
 	PtPartialBatch = "partial-batch" // right after a partial batch formed (consumer parked, nothing flushed)
 	PtConcurrent   = "concurrent"    // concurrently with enqueues (after the j-th enqueue *started*)
 	PtInline       = "inline"        // the enqueuing goroutine calls Shutdown right after its last enqueue returned
+	PtDrained      = "drained"       // everything accepted has been exported and the consumer is parked again
 )
 
 // Case is the full replayable input of one run.
@@ -66,6 +68,60 @@ type Case struct {
 	// expires while the drain is in progress when exports are held) | cancel-during (cancelled by another
 	// goroutine while Shutdown is draining)
 	ShutCtx string `json:"shutdown_ctx"`
+	// Fault is a storage fault armed right before Shutdown is requested (persistent queue): close (Close returns an
+	// error) | write-size-snapshot (the write of the queue size a not request-sized queue does in Shutdown fails) |
+	// write-all (every write fails from then on)
+	Fault string `json:"storage_fault,omitempty"`
+	// SettleMS: scheduling wait after Shutdown returned, long enough for a batch flush timer to fire, before the
+	// attempt records and the goroutine set are evaluated (the verdict is the event order, not the wait)
+	SettleMS int64 `json:"settle_ms,omitempty"`
+}
+
+// Storage faults.
+const (
+	FaultClose     = "close"
+	FaultWriteSize = "write-size-snapshot"
+	FaultWriteAll  = "write-all"
+)
+
+var errInjectedStorage = errors.New("injected storage fault (c03)")
+
+// applyStorageFault turns a persistent-queue case into one of the family "storage error at shutdown": a batcher
+// behind the persistent queue, a fault that the storage reports exactly while the exporter shuts down.
+func applyStorageFault(rng *rand.Rand, cs *Case) {
+	cfg := &cs.Cfg
+	hour := int64(3_600_000)
+	cs.Fault = []string{FaultClose, FaultClose, FaultWriteSize, FaultWriteSize, FaultWriteAll}[rng.Intn(5)]
+	cfg.Batch, cfg.Sizer, cfg.QueueSize, cfg.Unvalidated = expkit.BatchLegacy, "requests", 1000, false
+	cfg.Retry, cfg.MaxSize, cs.Slow, cs.ReleaseBefore = false, 0, false, 0
+	if cs.Script == "transient" {
+		cs.Script = "mixed"
+	}
+	switch cs.Fault {
+	case FaultClose:
+		// Close is only reached by the queue's Shutdown when nothing is in flight: everything is exported first
+		cs.Point = PtDrained
+		if rng.Intn(2) == 0 {
+			cfg.MinSize, cfg.FlushMS = 0, []int64{hour, hour, 2}[rng.Intn(3)]
+		} else {
+			cfg.MinSize, cfg.FlushMS = 1_000_000, int64(1+rng.Intn(3)) // the timer flushes every partial batch
+		}
+	default:
+		cs.Point = PtPartialBatch
+		cfg.MinSize = 1_000_000
+		cfg.FlushMS = []int64{hour, 20, 40}[rng.Intn(3)]
+		if cfg.FlushMS != hour {
+			cs.SettleMS = 3*cfg.FlushMS + 20
+		}
+		if cs.Fault == FaultWriteSize {
+			// only a queue that is not request-sized writes during Shutdown; the collector's config validation
+			// does not accept that with storage, a component configuring the helper in code can do it
+			cfg.Unvalidated, cfg.Sizer, cfg.QueueSize = true, "items", 100000
+			if rng.Intn(2) == 0 {
+				cfg.Batch = expkit.BatchItems
+			}
+		}
+	}
 }
 
 func (cs Case) scriptName() string {
@@ -251,6 +307,9 @@ func genCase(rng *rand.Rand) Case {
 			cfg.RetryElapsedMS = 30
 		}
 	}
+	if cfg.Persistent && rng.Intn(4) == 0 {
+		applyStorageFault(rng, &cs)
+	}
 	return cs
 }
 
@@ -322,6 +381,25 @@ func directed() []Case {
 		d.Cfg.MinSize, d.Cfg.FlushMS, d.Cfg.Retry, d.Cfg.RetryInitMS, d.Cfg.RetryMaxMS = 0, 1, true, 3_600_000, 3_600_000
 		d.Producers, d.Reqs, d.Script, d.K, d.Point, d.J, d.Directed = 2, 1, "transient", 1000, PtRetryWait, 1, "legacy-noqueue-retry-wait"
 		out = append(out, d)
+		// (15-19) storage error at shutdown: batcher behind a persistent queue
+		d = base(sig, true, expkit.BatchLegacy) // everything exported, one-hour flush timer armed, Close fails
+		d.Cfg.MinSize, d.Cfg.FlushMS, d.Point, d.Fault, d.Directed = 0, 3_600_000, PtDrained, FaultClose, "storage-close-error/idle-timer"
+		out = append(out, d)
+		d = base(sig, true, expkit.BatchLegacy) // partial batches flushed by a 2 ms timer, Close fails
+		d.Cfg.MinSize, d.Cfg.FlushMS, d.Point, d.Fault, d.Directed = 1_000_000, 2, PtDrained, FaultClose, "storage-close-error/timer-flushed"
+		out = append(out, d)
+		d = base(sig, true, expkit.BatchItems) // partial batch pending, 30 ms flush timer, size snapshot write fails
+		d.Cfg.Unvalidated, d.Cfg.Sizer, d.Cfg.QueueSize, d.Cfg.MinSize, d.Cfg.FlushMS = true, "items", 100000, 1_000_000, 30
+		d.Point, d.Fault, d.SettleMS, d.Directed = PtPartialBatch, FaultWriteSize, 110, "storage-write-error/partial-batch-short-timer"
+		out = append(out, d)
+		d = base(sig, true, expkit.BatchLegacy) // the same with the legacy batcher and a one-hour timer
+		d.Cfg.Unvalidated, d.Cfg.Sizer, d.Cfg.QueueSize, d.Cfg.MinSize, d.Cfg.FlushMS = true, "items", 100000, 1_000_000, 3_600_000
+		d.Point, d.Fault, d.Directed = PtPartialBatch, FaultWriteSize, "storage-write-error/partial-batch-long-timer"
+		out = append(out, d)
+		d = base(sig, true, expkit.BatchLegacy) // request-sized queue, every write fails from the shutdown on
+		d.Cfg.MinSize, d.Cfg.FlushMS = 1_000_000, 30
+		d.Point, d.Fault, d.SettleMS, d.Directed = PtPartialBatch, FaultWriteAll, 110, "storage-all-writes-fail/partial-batch-short-timer"
+		out = append(out, d)
 	}
 	return out
 }
@@ -343,10 +421,10 @@ func runCase(c *driver.Ctx, cs Case, backends *[]*expkit.Backend) (res outcome, 
 		c.Observe("skipped_invalid_config", 1)
 		return res, true
 	}
-	sigKV := []string{"signal", cfg.Signal, "queue", cfg.QueueKind(), "batch", cfg.Batch, "retry", fmt.Sprint(cfg.Retry), "script", cs.scriptName(), "point", cs.Point, "shutctx", cs.ShutCtx}
+	sigKV := []string{"signal", cfg.Signal, "queue", cfg.QueueKind(), "batch", cfg.Batch, "retry", fmt.Sprint(cfg.Retry), "script", cs.scriptName(), "point", cs.Point, "shutctx", cs.ShutCtx, "fault", map[bool]string{true: "none", false: cs.Fault}[cs.Fault == ""]}
 	if cs.ShutCtx == "" {
 		cs.ShutCtx = CtxBackground
-		sigKV[len(sigKV)-1] = CtxBackground
+		sigKV[len(sigKV)-3] = CtxBackground
 	}
 
 	before := expkit.HelperGoroutines()
@@ -549,6 +627,40 @@ func runCase(c *driver.Ctx, cs Case, backends *[]*expkit.Backend) (res outcome, 
 				want = min(want, cs.Producers)
 			}
 			steer(log.WaitCount(expkit.EvRetryLog, want, nil, steerCap))
+		case PtDrained:
+			steer(log.WaitCount(expkit.EvEnqRet, total, nil, steerCap))
+			want := 0
+			for p := range reqIDs {
+				for r := range reqIDs[p] {
+					want += len(reqIDs[p][r])
+				}
+			}
+			drained := false
+			for try := 0; try < 3000 && !drained; try++ {
+				if be.Inflight() == 0 {
+					seen := map[string]bool{}
+					for _, a := range be.Attempts() {
+						if a.End != 0 {
+							for _, id := range a.IDs {
+								seen[id] = true
+							}
+						}
+					}
+					drained = len(seen) >= want && expkit.ConsumersIdle(before, 1)
+				}
+				if !drained {
+					if try < 30 {
+						runtime.Gosched()
+					} else {
+						time.Sleep(100 * time.Microsecond)
+					}
+				}
+			}
+			if drained {
+				c.Observe("steer_drained_confirmed", 1)
+			} else {
+				c.Observe("steer_drained_not_confirmed", 1)
+			}
 		case PtPartialBatch:
 			if !cfg.WaitsForResult() {
 				steer(log.WaitCount(expkit.EvEnqRet, total, nil, steerCap))
@@ -585,6 +697,14 @@ func runCase(c *driver.Ctx, cs Case, backends *[]*expkit.Backend) (res outcome, 
 			shutCtx, cf = context.WithTimeout(context.Background(), time.Duration(1+h32(caseTag)%3)*time.Millisecond)
 			prev := shutCancel
 			shutCancel = func() { cf(); prev() }
+		}
+		switch cs.Fault { // the storage reports a problem exactly while the exporter shuts down
+		case FaultClose:
+			store.FailClose(errInjectedStorage)
+		case FaultWriteSize:
+			store.FailWrites(func(k string) bool { return k == "si" }, errInjectedStorage)
+		case FaultWriteAll:
+			store.FailWrites(nil, errInjectedStorage)
 		}
 		shutGID.Store(expkit.CurGID())
 		shutCall = log.Add(expkit.Event{Kind: expkit.EvShutCall})
@@ -644,6 +764,10 @@ func runCase(c *driver.Ctx, cs Case, backends *[]*expkit.Backend) (res outcome, 
 		}
 		cancelProducers()
 		wg.Wait()
+		if cs.SettleMS > 0 {
+			// scheduling wait only: a flush timer that is still armed has certainly fired after this
+			time.Sleep(time.Duration(cs.SettleMS) * time.Millisecond)
+		}
 		leaked = expkit.Leaked(before, 5)
 		if cfg.Persistent {
 			image = store.Image()
@@ -688,6 +812,18 @@ func runCase(c *driver.Ctx, cs Case, backends *[]*expkit.Backend) (res outcome, 
 	}
 	if shutErr != nil {
 		c.Observe("shutdown_returned_error", 1)
+	}
+	if cs.Fault != "" {
+		fc, fw := store.Faults()
+		c.Observe("fault:"+cs.Fault, 1)
+		c.Observe("fault_injected_close_errors_returned", fc)
+		c.Observe("fault_injected_write_errors_returned", fw)
+		if fc+fw > 0 {
+			c.Observe("fault_runs_where_the_fault_was_hit", 1)
+		}
+		if shutErr != nil && errors.Is(shutErr, errInjectedStorage) {
+			c.Observe("fault_runs_shutdown_returned_the_storage_error", 1)
+		}
 	}
 
 	// ---------------------------------------------------------------- oracle
@@ -855,6 +991,22 @@ func runCase(c *driver.Ctx, cs Case, backends *[]*expkit.Backend) (res outcome, 
 	c.Observe("unfinished_items_at_shutdown_request", int64(res.unfinished))
 	c.Observe("point:"+cs.Point, 1)
 	c.Observe("shutctx:"+cs.ShutCtx, 1)
+	if cs.Fault != "" {
+		// information (the statement lets a persistent queue keep it stored): accepted items not yet handed to the
+		// export function when Shutdown returned
+		beganBefore := map[string]bool{}
+		for _, a := range atts {
+			if a.Begin < shutRet {
+				for _, id := range a.IDs {
+					beganBefore[id] = true
+				}
+			}
+		}
+		if res.accepted > len(beganBefore) {
+			c.Observe("fault_runs_with_accepted_items_unattempted_at_shutdown_return", 1)
+			c.Note("fault run with unattempted accepted items at Shutdown return: %s fault=%s point=%s flush=%dms accepted=%d began_before_return=%d attempts=%d shutdown_err=%v", cfg.Class(), cs.Fault, cs.Point, cfg.FlushMS, res.accepted, len(beganBefore), len(atts), shutErr)
+		}
+	}
 	if shutErr != nil && cs.ShutCtx != CtxBackground {
 		c.Observe("shutdown_returned_ctx_error", 1)
 	}
